@@ -283,8 +283,9 @@ class Encoder:
             vals = sorted(set(f['value'] % (1 << (nbytes * 8)) for f in d['fields']))
             if signed and up:
                 raise NotSupported('signed enum upcast')
-            self.e.cons.append(z3.Or(*[x == BV(v, w) for v in vals]))
-            self.e.enum_sites.append({'path': p, 'definer': d['name'], 'first': len(self.e.bytes), 'nbytes': nbytes_w, 'be': be, 'term': x, 'values': vals, 'upcast': up})
+            valid = z3.Or(*[x == BV(v, w) for v in vals]) if len(vals) > 1 else (x == BV(vals[0], w))
+            self.e.cons.append(valid)
+            self.e.enum_sites.append({'path': p, 'definer': d['name'], 'first': len(self.e.bytes), 'nbytes': nbytes_w, 'be': be, 'term': x, 'values': vals, 'upcast': up, 'valid': valid})
         else:
             if nbytes_w > nbytes:
                 self.e.cons.append(z3.ULT(x, BV(1 << (nbytes * 8), w)))
